@@ -275,3 +275,37 @@ def run(ctx):
             v(f"PELT(L2Cost) reports more changepoints for a larger penalty_scale: scales [0.2,1,3,9] -> counts {counts}",
               {"X": x.tolist(), "counts": counts}, {"what": "pelt-monotone", "real": True})
     sys.path.pop(0)
+    # ---- p is the NUMBER OF COLUMNS of the training data, whatever their labels: frames whose columns share a label ----
+    import pandas as _pd
+    from skchange.anomaly_detectors import CAPA as _CAPA, MVCAPA as _MVCAPA, CircularBinarySegmentation as _CBS
+    from skchange.change_detectors import PELT as _PELT, MovingWindow as _MW, SeededBinarySegmentation as _SBS
+    _rng = np.random.default_rng(ctx.seed + 1515)
+    for it in range(ctx.n(4, 24)):
+        p = int(_rng.integers(2, 5))
+        n = int(_rng.integers(30, 80))
+        Xn = _rng.normal(size=(n, p))
+        labels = [["a"] * p, ["a", "b"] * p, [0] * p][it % 3][:p]
+        for name, mk, attrs in [("PELT", lambda: _PELT(penalty_scale=1.5), ["penalty_"]), ("MovingWindow", lambda: _MW(bandwidth=5, threshold_scale=1.5), ["threshold_"]),
+                                ("SeededBinarySegmentation", lambda: _SBS(threshold_scale=1.5), ["threshold_"]),
+                                ("CircularBinarySegmentation", lambda: _CBS(threshold_scale=1.5), ["threshold_"]),
+                                ("CAPA", lambda: _CAPA(collective_penalty_scale=1.5), ["collective_penalty_", "point_penalty_"]),
+                                ("MVCAPA", lambda: _MVCAPA(collective_penalty_scale=1.5), ["<scores>"])]:
+            try:
+                d_ref = mk().fit(Xn.copy())
+                d_dup = mk().fit(_pd.DataFrame(Xn.copy(), columns=labels))
+            except Exception as ex:
+                ctx.violation(f"{name}: fit on a frame whose columns share labels {labels} raised {type(ex).__name__}: {str(ex)[:100]}",
+                              {"detector": name, "n": n, "p": p, "labels": [str(l) for l in labels]}, {"what": "dup-columns-exception", "detector": name})
+                continue
+            ctx.case({"dupcols": name, "it": it, "n": n, "p": p}, nontrivial=True)
+            for a in attrs:
+                if a == "<scores>":          # MVCAPA derives its penalties from the shape of the data at predict time: compare the penalised scores
+                    va, vb = d_ref.transform_scores(Xn.copy()).to_numpy(), d_dup.transform_scores(_pd.DataFrame(Xn.copy(), columns=labels)).to_numpy()
+                else:
+                    va, vb = getattr(d_ref, a), getattr(d_dup, a)
+                fa = np.concatenate([np.atleast_1d(np.asarray(x, dtype=float)).ravel() for x in (va if isinstance(va, tuple) else (va,))])
+                fb = np.concatenate([np.atleast_1d(np.asarray(x, dtype=float)).ravel() for x in (vb if isinstance(vb, tuple) else (vb,))])
+                if fa.shape != fb.shape or not np.allclose(fa, fb, rtol=1e-12, atol=0.0):
+                    ctx.violation(f"{name}: {a} fitted on an n x {p} frame whose columns share labels {labels} is {fb.tolist()[:4]}, on the same numbers as an ndarray it is "
+                                  f"{fa.tolist()[:4]}: p must be the number of columns", {"detector": name, "n": n, "p": p, "labels": [str(l) for l in labels], "X": Xn.tolist()},
+                                  {"what": "dup-columns-p", "detector": name})
